@@ -46,3 +46,19 @@ pub use stream_tx::UtpStreamWriteHalf;
 pub use traits::Transport;
 
 type Payload = Vec<u8>;
+
+/// Verification-only re-exports of items that are already `pub` inside private modules.
+/// Compiled only with `--cfg librqbit_utp_verif`; adds no behaviour.
+#[cfg(librqbit_utp_verif)]
+pub mod verif_hooks {
+    pub use crate::congestion::{CongestionController, cubic::Cubic};
+    pub use crate::message::UtpMessage;
+    pub use crate::recovery::Recovery;
+    pub use crate::rtte::RttEstimator;
+    pub use crate::seq_nr::SeqNr;
+    pub use crate::stream_rx::{AssemblerAddRemoveResult, OutOfOrderQueue, UserRx};
+    pub use crate::stream_tx::{UserTx, UtpStreamWriteHalf};
+    pub use crate::stream_tx_segments::{OnAckResult, PopExpiredProbe, Segments};
+    pub use crate::traits::{DefaultUtpEnvironment, UtpEnvironment};
+    pub use crate::utils::{prepare_2_ioslices, seq_nr_offset};
+}
